@@ -293,6 +293,18 @@ def main(tier, seed, replay=None):
     with ProcessPoolExecutor(max_workers=14) as ex:
         traces = list(ex.map(program, jobs, chunksize=4)) + list(ex.map(known_program, kjobs, chunksize=4)) + list(ex.map(herm_program, kjobs, chunksize=4))
     nev, kinds, rej = report_traces(rep, traces)
+    if not replay:
+        from vlib import negative_controls
+        def c_verdict(e):
+            if e['op'] in ('svd', 'qr', 'eigh') and e['out'] == 'ok' and isinstance(e.get('verdicts'), dict) and e['verdicts'] and all(e['verdicts'].values()):
+                k = sorted(e['verdicts'])[0]
+                e['verdicts'][k] = False
+                return True
+        def c_axis(e):
+            if e['op'] == 'svd' and e['out'] == 'ok' and e['L'].get('s') and len(e['L']['s']) >= 2:
+                e['L']['s'] = [-v for v in e['L']['s']]           # factor U with flipped signatures
+                return True
+        rep.cov['parts']['negative_controls_rejected'] = negative_controls('TraceTensor', 'TraceTensor.cfg', traces, [('a measured clause is false', c_verdict), ('signatures of U flipped', c_axis)], timeout=900, mem='3g')
     fe = [e for t in traces for e in t['ev'] if e['op'] in ('svd', 'qr', 'eigh')]
     rep.cov['traces_validated_against_impl'] = len(traces)
     rep.cov['evaluations'] = nev
